@@ -19,6 +19,7 @@ import traceback
 
 sys.path.insert(0, os.path.dirname(os.path.abspath(__file__)))
 from _util import exc_class, rng  # noqa: E402
+from _util import pool_map  # noqa: E402
 
 from Crypto.Util import asn1  # noqa: E402
 
@@ -159,9 +160,7 @@ def sweep(inp):
         jobs.append((d, inp["alphabet"], 0, []))
         for b in inp["alphabet"]:
             jobs.append((d, inp["alphabet"], inp["maxlen"], [b]))
-    with multiprocessing.Pool(16) as pool:
-        out = pool.map(_sweep_one, jobs, chunksize=1)
-    return out
+    return pool_map(_sweep_one, jobs, chunksize=1)
 
 
 # ------------------------------------------------------------------------------------------------ single calls
